@@ -160,14 +160,19 @@ def remark_stage(ctx, cases):
             upd.append(nq)
             latest[(q[0].lower(), q[1].lower())] = nq
         probes = [(a, b) for a in names for b in names][:64]
+        ops = [{"kind": "update", "quotes": upd, "probes": probes}]
+        if rng.random() < 0.6:
+            # ... and the rates survive switches of the AD order (two, then back to one or to zero): same values, pair by pair
+            ops.append({"kind": "order", "order": 2, "probes": probes})
+            ops.append({"kind": "order", "order": rng.choice([1, 1, 0]), "probes": probes})
         hs.append({"qs": c["qs"], "base": base, "probes0": [], "n": c["n"], "latest": list(latest.values()), "names": names,
-                   "ops": [{"kind": "update", "quotes": upd, "probes": probes}]})
+                   "ops": ops})
     encs = [c10.enc_case(h) for h in hs]
     impl = run_harness("fx", [c10.line_hist(e) for e in encs])
     model = coq_eval("Run.RunFX", "runFX", [[1] + e for e in encs], ctx.work, shard=max(10, len(encs) // (NCPU * 2) + 1), tag="c09r")
     for h, e, a, b in zip(hs, encs, impl, model):
         ctx.evaluations += 1
-        ctx.count("re-marked markets (construct with a base, update 1-3 own pairs, read every pair)")
+        ctx.count("re-marked markets (construct with a base, update 1-3 own pairs, read every pair)" + (", then AD order two and back" if len(h["ops"]) > 1 else ""))
         ctx.nontriv(("remark", tuple(e)))
         bad = c10.compare_case(h, a, b)
         what = None
@@ -177,11 +182,15 @@ def remark_stage(ctx, cases):
             try:
                 steps = c10.parse_hist(a, h)
                 ref = fxgen.reference_rates(h["latest"], h["names"])
-                if len(steps) >= 2 and steps[1][0] == 0:
-                    for (x, y), v in zip(h["ops"][0]["probes"], steps[1][1]):
-                        got = v["re"] if v is not None else None
-                        if got is None or not fclose(got, ref[(x, y)], rtol=1e-9):
-                            what = "after the update rate(%s,%s) = %r is not the path product %r of the latest quotes" % (x, y, got, ref[(x, y)])
+                if len(steps) == 1 + len(h["ops"]) and all(s_[0] == 0 for s_ in steps[1:]):
+                    for k in range(1, len(steps)):
+                        for (x, y), v in zip(h["ops"][k - 1]["probes"], steps[k][1]):
+                            got = v["re"] if v is not None else None
+                            if got is None or not fclose(got, ref[(x, y)], rtol=1e-9):
+                                what = "after %s rate(%s,%s) = %r is not the path product %r of the latest quotes" % (
+                                    "the update" if k == 1 else "the update and %d switch(es) of the AD order" % (k - 1), x, y, got, ref[(x, y)])
+                                break
+                        if what:
                             break
                 else:
                     what = "an update of the market's own pairs is not accepted (classes %s)" % [s_[0] for s_ in steps]
